@@ -526,6 +526,83 @@ func tokenMutations(k *run.K, e entry, rounds int) {
 	k.Count("class_token_mutation", int64(n))
 }
 
+// featureDocs wraps a geometry document in Feature and FeatureCollection documents built from every
+// subset and order of the top-level members a Feature may or may not have (type, geometry, properties,
+// id, bbox, foreign and misspelt members, duplicates, null/wrongly typed values), and feeds them - and
+// token mutations of them - to every GeoJSON entry point.
+func featureDocs(k *run.K, e entry, rounds int) {
+	geomDoc := string(e.data)
+	vals := map[string][]string{
+		"type":       {`"Feature"`, `"Feature"`, `"Feature"`, `"feature"`, `"FeatureCollection"`, `"Point"`, `null`, `1`, `""`},
+		"geometry":   {geomDoc, geomDoc, geomDoc, `null`, `{}`, `[]`, `"x"`, `{"type":"Point"}`, `{"type":"Point","coordinates":[1,2]}`},
+		"properties": {`{}`, `null`, `{"a":1}`, `[]`, `"p"`, `{"a":{"b":[1,2,{"c":null}]}}`},
+		"id":         {`1`, `"id"`, `null`, `{}`, `1.5`, `[1]`},
+		"bbox":       {`[1,2,1,2]`, `null`, `[]`, `"b"`},
+		"propertie":  {`{}`, `1`},
+		"Type":       {`"Feature"`},
+		"geometries": {`[]`, `[` + geomDoc + `]`},
+		"features":   {`[]`, `null`},
+		"foreign":    {`1`, `null`, `{"type":"Feature"}`, `[[[]]]`},
+		"":           {`0`},
+	}
+	names := []string{"type", "geometry", "properties", "id", "bbox", "propertie", "Type", "geometries", "features", "foreign", ""}
+	n := 0
+	mkFeature := func() string {
+		var parts []string
+		cnt := k.Rng.Range(0, 5)
+		if k.Rng.Intn(3) > 0 { // usually a real feature core first, then 0..3 more members
+			parts = append(parts, `"type":`+vals["type"][k.Rng.Intn(3)], `"geometry":`+vals["geometry"][k.Rng.Intn(4)])
+			cnt = k.Rng.Range(0, 3)
+		}
+		for ; cnt > 0; cnt-- {
+			nm := names[k.Rng.Intn(len(names))]
+			vs := vals[nm]
+			parts = append(parts, fmt.Sprintf("%q:%s", nm, vs[k.Rng.Intn(len(vs))]))
+		}
+		sh := make([]string, len(parts))
+		for a, b := range k.Rng.Perm(len(parts)) {
+			sh[a] = parts[b]
+		}
+		return "{" + strings.Join(sh, ",") + "}"
+	}
+	for i := 0; i < rounds; i++ {
+		doc := mkFeature()
+		feed(k, "geojson", []byte(doc))
+		n++
+		if i%3 == 0 {
+			var fs []string
+			for c := k.Rng.Range(0, 3); c > 0; c-- {
+				fs = append(fs, mkFeature())
+			}
+			extra := ""
+			if k.Rng.Intn(3) == 0 {
+				extra = `,"bbox":[0,0,1,1]`
+			} else if k.Rng.Intn(3) == 0 {
+				extra = `,"foreign":{"x":[1]}`
+			}
+			order := k.Rng.Intn(3)
+			var fc string
+			switch order {
+			case 0:
+				fc = `{"type":"FeatureCollection","features":[` + strings.Join(fs, ",") + `]` + extra + `}`
+			case 1:
+				fc = `{"features":[` + strings.Join(fs, ",") + `],"type":"FeatureCollection"` + extra + `}`
+			default:
+				fc = `{"features":[` + strings.Join(fs, ",") + `]` + extra + `}`
+			}
+			feed(k, "geojson", []byte(fc))
+			n++
+			if i%12 == 0 {
+				tokenMutations(k, entry{format: "geojson", data: []byte(fc)}, 6)
+			}
+		}
+		if i%6 == 0 {
+			tokenMutations(k, entry{format: "geojson", data: []byte(doc)}, 4)
+		}
+	}
+	k.Count("class_feature_document", int64(n))
+}
+
 func nested(k *run.K, format string, depth int) {
 	var s string
 	switch format {
@@ -612,6 +689,13 @@ func runAll(c *run.Ctx) {
 				c.Case("tokens:"+f, i, func(k *run.K) {
 					if e, ok := mk(k); ok {
 						tokenMutations(k, e, c.N(150, 1500))
+					}
+				})
+			}
+			if f == "geojson" {
+				c.Case("feature:"+f, i, func(k *run.K) {
+					if e, ok := mk(k); ok {
+						featureDocs(k, e, c.N(60, 600))
 					}
 				})
 			}
